@@ -233,7 +233,27 @@ def strategy_scaling(res, tier, rng, replay):
                 res.violation({'strategy_case': {'name': name, 'ns': ns, 'fs': fs, 'ohlcv': o}, 'factors': [cp, cv],
                                'first_difference': {'index': k, 'original_action': ba[k] if k < len(ba) else None, 'scaled_action': sa[k] if k < len(sa) else None},
                                'oracle': 'the action stream of a strategy does not change when every price (volume) is multiplied by a positive constant'})
-    return bad, len(lines), len(cells)
+    # the outcome of a recommendation stream (a ratio of prices) does not depend on the currency unit either
+    tl, tmeta = [], []
+    for t in range(40 if tier == 'quick' else 600):
+        n = rng.randrange(2, 50)
+        word = cs.gen_word(rng, n)
+        closes = cs.gen_closes(rng, n)
+        k = 2.0 ** rng.choice([-30, -20, -10, -3, 2, 8, 15, 20, 24])
+        tl.append('z%d %s' % (t, cs.tree_line('w:0', [word], closes)))
+        tl.append('z%d_s %s' % (t, cs.tree_line('w:0', [word], [c * k for c in closes])))
+        tmeta.append((t, word, closes, k))
+    tgo = vlib.run_go(tl)
+    for (t, word, closes, k) in tmeta:
+        a, b = tgo.get('z%d' % t, 'missing'), tgo.get('z%d_s' % t, 'missing')
+        if not a.startswith('ok') or not b.startswith('ok'):
+            continue
+        if a.split(' | ')[1] != b.split(' | ')[1]:
+            bad += 1
+            if bad <= 10:
+                res.violation({'outcome_case': {'word': word, 'closes': closes, 'price_factor': k}, 'original': a[:300], 'scaled': b[:300],
+                               'oracle': 'Outcome(values * k, actions) = Outcome(values, actions) bit for bit for a power of two k'})
+    return bad, len(lines) + len(tl), len(cells)
 
 
 # =====================================================================================
